@@ -13,7 +13,7 @@ PROPERTY = 'C07'
 LEVEL = 'exploration'
 TECHNIQUE = 'transport-log predicate (one PUB socket per id) + duplicate/order checkers over worker and joiner histories on seeded simulated-network executions, and the same checkers over logs of real-pyzmq multi-process runs'
 RULE = ('2-4 branches, worker speed profiles {equal, one slow, all different, varying per frame}, splitter faster/slower than '
-        'workers, optional second worker per branch (balance hop counter), optional ?? watchers on branches, link delays up to '
+        'workers, optional second worker per branch (balance hop counter), optional ?? watchers on branches, optional empty frame sets, optional worker that leaves cleanly in mid-run, link delays up to '
         '95 ms and slow links (safety only); non-trivial = frames reached the joiner from >=2 branches (and >=1 late frame '
         'was discarded or >=2 workers were busy at once); distinct = (branches, speed profile, schedule signature)')
 ASSUMPTIONS = ['the joiner is not required to see every frame (late frames of a slow branch are dropped by design)', 'simnet assumptions of C01']
@@ -39,12 +39,23 @@ def gen(rng, seed):
         if rng.random() < 0.2:
             p.sink(f'e{i}', [{'pub': f'w{i}', 'form': 'all', 'eph': 2}], {'proc_ms': [0]})
     p.sink('sink', ins, {'proc_ms': rng.choice([[0], [10], [100]])}, balance_in=True)
+    extras = []
+    if rng.random() < 0.25:
+        # empty frame sets ({}): only the id travels, and it too must go to exactly one branch
+        p.by_id['src']['beh'].update(empty_mod=rng.choice([3, 4, 5]), empty_rem=rng.randint(0, 2))
+        extras.append('empty-frames')
+    if rng.random() < 0.25:
+        # one worker ends cleanly in mid-run without telling anybody but its sockets (CLOSE reaches the joiner)
+        wq = p.by_id[f'w{rng.randrange(k)}']
+        wq['beh']['inject'] = {'point': 'process', 'how': 'exit', 'k': rng.randint(2, 8)}
+        wq['prop_exit'] = 'none'
+        extras.append('worker-leaves')
     for n in p.nodes:
         n['start_ms'] = rng.choice([0, 0, rng.randint(0, 200)])
     link = {'max_delay_ms': rng.choice([0, 10, 50, 95]), 'conn_ms': [0, 30], 'sub_ms': [0, 20]}
     if rng.random() < 0.15:
         link.update(max_delay_ms=200, mode='bimodal', spike_p=0.1, spike_ms=400)
-    return scenarios.finish(p, seed, link, 120000, family='balance', branches=k, profile=profile)
+    return scenarios.finish(p, seed, link, 120000, family='balance', branches=k, profile=profile, extras=extras)
 
 
 def judge(w, scn, res):
@@ -86,6 +97,8 @@ def judge(w, scn, res):
                     branches.add(seen[key])
     res.count(f'branches_reaching_joiner={len(branches)}')
     res.count('profile:' + scn['profile'])
+    for x_ in scn.get('extras') or ():
+        res.count('extra:' + x_)
     late = w.warnings['older']
     res.count('late_frames_discarded_at_joiner', late)
     if len(branches) >= 2:
